@@ -1179,14 +1179,43 @@ func (c *srcCmp) goBindings() {
 			}
 			c.goField(fpath, fd, sf, rt)
 		}
+		for i := 0; i < md.Enums().Len(); i++ {
+			c.goLegacyEnum(md.Enums().Get(i))
+		}
 		for i := 0; i < md.Messages().Len(); i++ {
 			n := md.Messages().Get(i)
 			visit(n, goName+"_"+goCamel(string(n.Name())))
 		}
 	}
+	for i := 0; i < c.fd.Enums().Len(); i++ {
+		c.goLegacyEnum(c.fd.Enums().Get(i))
+	}
 	for i := 0; i < c.fd.Messages().Len(); i++ {
 		md := c.fd.Messages().Get(i)
 		visit(md, goCamel(string(md.Name())))
+	}
+}
+
+// goLegacyEnum follows the index path of an enum's legacy EnumDescriptor()
+// (message indices, then the enum index) in the gunzipped descriptor.
+func (c *srcCmp) goLegacyEnum(ed protoreflect.EnumDescriptor) {
+	path := strings.TrimPrefix(string(ed.FullName()), string(c.fd.Package())+".")
+	et, err := protoregistry.GlobalTypes.FindEnumByName(ed.FullName())
+	if err != nil || et.Descriptor() != ed {
+		c.unclear(path, "Go type of the enum not reachable through the type registry")
+		return
+	}
+	le, ok := et.New(0).(interface{ EnumDescriptor() ([]byte, []int) })
+	if !ok {
+		return
+	}
+	c.el("go-legacy-descriptor", path)
+	gz, idx := le.EnumDescriptor()
+	name, err := legacyEnumPathName(gz, idx)
+	if err != nil {
+		c.bad("go:legacy-descriptor", path, "legacy EnumDescriptor() cannot be followed: "+err.Error(), string(ed.FullName()), "")
+	} else if name != string(ed.FullName()) {
+		c.bad("go:legacy-descriptor", path, "legacy EnumDescriptor() index path names another enum", string(ed.FullName()), name)
 	}
 }
 
@@ -1378,4 +1407,40 @@ func legacyPathName(gz []byte, path []int) (string, error) {
 		name += "." + m.GetName()
 	}
 	return name, nil
+}
+
+// legacyEnumPathName follows a legacy enum index path: zero or more message
+// indices followed by the index of the enum in that scope.
+func legacyEnumPathName(gz []byte, path []int) (string, error) {
+	zr, err := gzip.NewReader(bytes.NewReader(gz))
+	if err != nil {
+		return "", err
+	}
+	raw, err := io.ReadAll(zr)
+	if err != nil {
+		return "", err
+	}
+	var fdp descriptorpb.FileDescriptorProto
+	if err := proto.Unmarshal(raw, &fdp); err != nil {
+		return "", err
+	}
+	if len(path) == 0 {
+		return "", fmt.Errorf("empty index path")
+	}
+	name := fdp.GetPackage()
+	enums := fdp.EnumType
+	msgs := fdp.MessageType
+	for _, i := range path[:len(path)-1] {
+		if i < 0 || i >= len(msgs) {
+			return "", fmt.Errorf("index path %v out of range", path)
+		}
+		m := msgs[i]
+		name += "." + m.GetName()
+		enums, msgs = m.EnumType, m.NestedType
+	}
+	last := path[len(path)-1]
+	if last < 0 || last >= len(enums) {
+		return "", fmt.Errorf("index path %v out of range", path)
+	}
+	return name + "." + enums[last].GetName(), nil
 }
